@@ -20,7 +20,8 @@ Record tsum := {
   ts_last_final : bool;
   ts_matches : N; ts_lits : N;
   ts_maxdist : N; ts_minlen : N; ts_maxlen : N; ts_maxstored : N;
-  ts_maxhlit : N; ts_maxhdist : N; ts_maxcodelen : N
+  ts_maxhlit : N; ts_maxhdist : N; ts_maxcodelen : N;
+  ts_fixed_nonempty : N   (* fixed blocks carrying tokens; an empty fixed block is a partial-flush marker *)
 }.
 
 Definition tok_fold (acc : N * N * N * N * N) (t : token) :=
@@ -52,7 +53,8 @@ Definition summarize (bs : list block) : tsum :=
      ts_maxstored := fold_left N.max (map (fun b => if is_kind Stored b then N.of_nat (length (b_tokens b)) else 0) bs) 0;
      ts_maxhlit := fold_left N.max (map (fun b => N.of_nat (length (b_litlens b))) bs) 0;
      ts_maxhdist := fold_left N.max (map (fun b => N.of_nat (length (b_distlens b))) bs) 0;
-     ts_maxcodelen := fold_left N.max (flat_map (fun b => b_litlens b ++ b_distlens b) bs) 0 |}.
+     ts_maxcodelen := fold_left N.max (flat_map (fun b => b_litlens b ++ b_distlens b) bs) 0;
+     ts_fixed_nonempty := count_if (fun b => is_kind Fixed b && match b_tokens b with [] => false | _ => true end) bs |}.
 
 (* A prefix of a stream (C12): parse as many whole blocks as are present; report the bytes
    they expand to, whether parsing stopped exactly at a block boundary for lack of input,
